@@ -25,8 +25,8 @@ fn base_module() -> Vec<u8> {
             (memory 3)
             (global (mut i32) (i32.const 1))
             (global i64 (i64.const 2))
-            (func (type 0))
-            (func (type 0))
+            (func (type 0) nop)
+            (func (type 0) nop)
             (data "abc")
         )"#,
     )
@@ -323,6 +323,103 @@ impl Prop for C24 {
                         json!({"helper": name, "decoded": format!("{:?}", ops), "expected": "[<instruction>, end]"}),
                     ),
                     (_, e) => out.violate(format!("{}:encoded-undecodable", name), json!({"helper": name, "error": e})),
+                }
+            }
+        }
+        // (c) helpers whose immediate names a function / global / memory, under re-indexing: the helper is used on a builder or
+        // injected (before / after / alternate) through a FunctionModifier, an import is added to one of the three index spaces,
+        // and the instruction of the encoded module must designate the same item (imports first: items 1, 2 become 2, 3)
+        if let Some(kind) = mapped_kind(name) {
+            let mut a3 = random_args(&mut rng, Some(kind));
+            let pre = ["none", "func", "global", "memory"][rng.below(4)];
+            let via = ["builder", "before", "after", "alternate"][rng.below(4)];
+            out.ob(format!("reindex:{}-helper/import-added:{}/{}", kind, pre, via));
+            let base = base_module();
+            let r3 = catch(|| {
+                use wirm::ir::id::FunctionID;
+                use wirm::ir::types::Location;
+                use wirm::opcode::Instrumenter;
+                let mut m = wirm::Module::parse(&base, true).expect("parse base");
+                let early = rng.bool();
+                let mut add = |m: &mut wirm::Module| match pre {
+                    "func" => {
+                        m.add_import_func("env".into(), "x".into(), wirm::ir::id::TypeID(0));
+                    }
+                    "global" => {
+                        m.add_imported_global("env".into(), "x".into(), wirm::DataType::I32, false, false);
+                    }
+                    "memory" => {
+                        m.add_import_memory("env".into(), "x".into(), wasmparser::MemoryType { memory64: false, shared: false, initial: 1, maximum: None, page_size_log2: None });
+                    }
+                    _ => {}
+                };
+                if early {
+                    add(&mut m);
+                }
+                if via == "builder" {
+                    let mut fb = FunctionBuilder::new(&[], &[]);
+                    c24_table::apply(name, &mut fb, &a3);
+                    fb.finish_module(&mut m);
+                } else {
+                    let mut fm = m.functions.get_fn_modifier(FunctionID(1)).expect("modifier");
+                    let loc = Location::Module { func_idx: FunctionID(1), instr_idx: 0 };
+                    match via {
+                        "before" => fm.before_at(loc),
+                        "after" => fm.after_at(loc),
+                        _ => fm.alternate_at(loc),
+                    };
+                    c24_table::apply(name, &mut fm, &a3);
+                }
+                if !early {
+                    add(&mut m);
+                }
+                m.encode()
+            });
+            let sh = |x: u32| if x >= 1 { x + 1 } else { x };
+            if pre == kind {
+                match kind {
+                    "func" | "global" => a3.u[0] = sh(a3.u[0]),
+                    _ => match name {
+                        "memory_init" => a3.u[1] = sh(a3.u[1]),
+                        "memory_copy" => {
+                            a3.u[0] = sh(a3.u[0]);
+                            a3.u[1] = sh(a3.u[1]);
+                        }
+                        n if n.starts_with("memory_") => a3.u[0] = sh(a3.u[0]),
+                        _ => a3.memarg_enc.memory_index = sh(a3.memarg_enc.memory_index),
+                    },
+                }
+            }
+            let exp3 = enc(&c24_table::expected(name, &a3).expect("table entry"));
+            match r3 {
+                Err(p) => out.violate(format!("{}:reindexed-encode-{}", name, p.sig()), json!({"helper": name, "panic": p.json(), "import_added": pre, "via": via})),
+                Ok(bytes) => {
+                    let mut bodies: Vec<Vec<wasmparser::Operator>> = vec![];
+                    for p in wasmparser::Parser::new(0).parse_all(&bytes) {
+                        if let Ok(wasmparser::Payload::CodeSectionEntry(b)) = p {
+                            if let Ok(v) = b.get_operators_reader().and_then(|r| r.into_iter().collect::<Result<Vec<_>, _>>()) {
+                                bodies.push(v);
+                            }
+                        }
+                    }
+                    // builder: the last body is [op, end]; modifier: the first body is [op, nop, end] / [nop, op, end] / [op, end]
+                    let got = match via {
+                        "builder" => bodies.last().filter(|b| b.len() == 2).map(|b| b[0].clone()),
+                        "before" => bodies.first().filter(|b| b.len() == 3).map(|b| b[0].clone()),
+                        "after" => bodies.first().filter(|b| b.len() == 3).map(|b| b[1].clone()),
+                        _ => bodies.first().filter(|b| b.len() == 2).map(|b| b[0].clone()),
+                    };
+                    match got.as_ref().map(enc_op) {
+                        Some(Ok(b)) if b == exp3 => out.ob("reindexed_checked"),
+                        Some(Ok(_)) => out.violate(
+                            format!("{}:reindexed-immediate-differs|{}-import-added", name, pre),
+                            json!({"helper": name, "import_added": pre, "via": via, "expected": format!("{:?}", c24_table::expected(name, &a3)), "decoded": format!("{:?}", got)}),
+                        ),
+                        _ => out.violate(
+                            format!("{}:reindexed-body-shape", name),
+                            json!({"helper": name, "import_added": pre, "via": via, "bodies": format!("{:?}", bodies)}),
+                        ),
+                    }
                 }
             }
         }
